@@ -45,6 +45,56 @@ pub mod p {
 }
 
 // ---------------------------------------------------------------- (O) success-ordered
+pub mod p2 {
+    use super::*;
+
+    /// ends with a directory sync itself - must not count as "a directory sync before the switch"
+    pub fn switch_current(path: &Path) -> std::io::Result<()> {
+        std::fs::rename(path.with_extension("tmp"), path)?;
+        fsync_directory(path.parent().unwrap_or(path))
+    }
+
+    pub fn bad_switch_before_dirsync(dir: &Path, data: &[u8]) -> std::io::Result<()> {
+        let mut f = File::create(dir.join("v1"))?;
+        f.write_all(data)?;
+        f.sync_all()?;
+        switch_current(&dir.join("current"))
+    }
+
+    pub fn good_dirsync_then_switch(dir: &Path, data: &[u8]) -> std::io::Result<()> {
+        let mut f = File::create(dir.join("v1"))?;
+        f.write_all(data)?;
+        f.sync_all()?;
+        fsync_directory(dir)?;
+        switch_current(&dir.join("current"))
+    }
+}
+
+pub mod k2 {
+    /// licensing edges: the insertion must be unreachable once the licensing edge is cut
+    pub fn good_licensed(sizes: &[u64], limit: u64) -> Vec<u64> {
+        let mut out = Vec::new();
+        let total: u64 = sizes.iter().sum();
+        if total > limit {
+            for s in sizes {
+                out.push(*s);
+            }
+        }
+        out
+    }
+
+    pub fn bad_or_licensed(sizes: &[u64], limit: u64, force: bool) -> Vec<u64> {
+        let mut out = Vec::new();
+        let total: u64 = sizes.iter().sum();
+        if total > limit || force {
+            for s in sizes {
+                out.push(*s);
+            }
+        }
+        out
+    }
+}
+
 pub mod o {
     use super::*;
 
@@ -212,6 +262,20 @@ pub mod l {
             let guard = self.history.read().expect("poisoned");
             let n = guard.0.len();
             work(n, v)
+        }
+
+        /// one snapshot per read
+        pub fn good_one_read(&self, v: u64) -> usize {
+            let guard = self.history.read().expect("poisoned");
+            let n = guard.0.len();
+            let m = guard.0.iter().filter(|x| **x == v).count();
+            n + m
+        }
+
+        pub fn bad_two_reads(&self, v: u64) -> usize {
+            let n = self.good_insert(v);
+            let m = self.history.read().expect("poisoned").0.len();
+            n + m
         }
 
         pub fn good_order(&self) {
